@@ -164,7 +164,11 @@ define {
             THEN {"kick " \o IName(ix) : ix \in {q \in 1..Len(pi) : PupLive(q) /\ PupMode(pi[q].pup) # "pull"
                                                                    /\ pi[q].sent < MaxData}}
             ELSE {})
-  SubOpts(p) == {"now"} \cup (IF PupLate(p) THEN {"later"} ELSE {})
+  \* threaded scenarios: a member whose thread program starts with "greet" answers the Handshake from
+  \* its own thread (later); every other member greets inside the subscribing call
+  ThrGreets(p) == \E t \in 1..Len(CFG.thr) : CFG.thr[t].pid = p /\ CFG.thr[t].greet
+  SubOpts(p) == IF Len(CFG.thr) > 0 THEN (IF ThrGreets(p) THEN {"later"} ELSE {"now"})
+                ELSE {"now"} \cup (IF PupLate(p) THEN {"later"} ELSE {})
   AnswerOpts(ix) == (IF pi[ix].sent < MaxData THEN {"data"} ELSE {}) \cup {"end"}
                     \cup (IF CFG.allowFail THEN {"err"} ELSE {})
   BurstOpts(ix) == {"stop"} \cup AnswerOpts(ix)
@@ -1387,6 +1391,10 @@ process (Thr \in 1..NThr)
 {
 th_start:
   await started /\ self <= Len(CFG.thr);
+TH0:
+  if (CFG.thr[self].greet /\ pi[InstOfPid(CFG.thr[self].pid)].pending) {
+    call Greet(InstOfPid(CFG.thr[self].pid));
+  };
 TH1:
   while (tk < CFG.thr[self].data /\ PupLive(InstOfPid(CFG.thr[self].pid))) {
     \* a conformant member does not begin an emission once it was stopped
@@ -1486,7 +1494,11 @@ SinkOpts(k, top) ==
           THEN {"kick " \o IName(ix) : ix \in {q \in 1..Len(pi) : PupLive(q) /\ PupMode(pi[q].pup) # "pull"
                                                                  /\ pi[q].sent < MaxData}}
           ELSE {})
-SubOpts(p) == {"now"} \cup (IF PupLate(p) THEN {"later"} ELSE {})
+
+
+ThrGreets(p) == \E t \in 1..Len(CFG.thr) : CFG.thr[t].pid = p /\ CFG.thr[t].greet
+SubOpts(p) == IF Len(CFG.thr) > 0 THEN (IF ThrGreets(p) THEN {"later"} ELSE {"now"})
+              ELSE {"now"} \cup (IF PupLate(p) THEN {"later"} ELSE {})
 AnswerOpts(ix) == (IF pi[ix].sent < MaxData THEN {"data"} ELSE {}) \cup {"end"}
                   \cup (IF CFG.allowFail THEN {"err"} ELSE {})
 BurstOpts(ix) == {"stop"} \cup AnswerOpts(ix)
@@ -3307,7 +3319,7 @@ DDisp(self) == /\ pc[self] = "DDisp"
                                                                                                                                                                                                                                      sx, 
                                                                                                                                                                                                                                      ch >>
                                                                                                                                                                                                      ELSE /\ Assert(FALSE, 
-                                                                                                                                                                                                                    "Failure of assertion at line 1153, column 5.")
+                                                                                                                                                                                                                    "Failure of assertion at line 1157, column 5.")
                                                                                                                                                                                                           /\ pc' = [pc EXCEPT ![self] = "Ret"]
                                                                                                                                                                                                           /\ UNCHANGED << st, 
                                                                                                                                                                                                                           tasks, 
@@ -6791,12 +6803,27 @@ Main == M0 \/ M1 \/ M2 \/ M3 \/ M4 \/ MDone \/ MWait \/ MFin
 
 th_start(self) == /\ pc[self] = "th_start"
                   /\ started /\ self <= Len(CFG.thr)
-                  /\ pc' = [pc EXCEPT ![self] = "TH1"]
+                  /\ pc' = [pc EXCEPT ![self] = "TH0"]
                   /\ UNCHANGED << ci, st, nd, sk, pi, fi, tasks, now, obs, 
                                   script, ntop, panicked, started, mon, done, 
                                   stack, fr, to, m, lg, sx, jx, ch, lv, snap, 
                                   ka, ca, gx, ex, nx, fx, bx, bc, tx, ta, tc, 
                                   ft, act, sj, tk >>
+
+TH0(self) == /\ pc[self] = "TH0"
+             /\ IF CFG.thr[self].greet /\ pi[InstOfPid(CFG.thr[self].pid)].pending
+                   THEN /\ /\ gx' = [gx EXCEPT ![self] = InstOfPid(CFG.thr[self].pid)]
+                           /\ stack' = [stack EXCEPT ![self] = << [ procedure |->  "Greet",
+                                                                    pc        |->  "TH1",
+                                                                    gx        |->  gx[self] ] >>
+                                                                \o stack[self]]
+                        /\ pc' = [pc EXCEPT ![self] = "G0"]
+                   ELSE /\ pc' = [pc EXCEPT ![self] = "TH1"]
+                        /\ UNCHANGED << stack, gx >>
+             /\ UNCHANGED << ci, st, nd, sk, pi, fi, tasks, now, obs, script, 
+                             ntop, panicked, started, mon, done, fr, to, m, lg, 
+                             sx, jx, ch, lv, snap, ka, ca, ex, nx, fx, bx, bc, 
+                             tx, ta, tc, ft, act, sj, tk >>
 
 TH1(self) == /\ pc[self] = "TH1"
              /\ IF tk[self] < CFG.thr[self].data /\ PupLive(InstOfPid(CFG.thr[self].pid))
@@ -6853,8 +6880,8 @@ TH4(self) == /\ pc[self] = "TH4"
                              m, lg, sx, jx, ch, lv, snap, ka, ca, gx, ex, nx, 
                              fx, bx, bc, tx, ta, tc, ft, act, sj, tk >>
 
-Thr(self) == th_start(self) \/ TH1(self) \/ TH2(self) \/ TH3(self)
-                \/ TH4(self)
+Thr(self) == th_start(self) \/ TH0(self) \/ TH1(self) \/ TH2(self)
+                \/ TH3(self) \/ TH4(self)
 
 (* Allow infinite stuttering to prevent deadlock on termination. *)
 Terminating == /\ \A self \in ProcSet: pc[self] = "Done"
@@ -6881,6 +6908,7 @@ Finished == done \/ panicked
 (* built with --cfg callbag_verif, calls the scheduler hook (one label per shared-state access of   *)
 (* merge/combine/take on the member-thread paths, plus the probe sink's handler and thread start).   *)
 AccessLabels == {"th_start", "K1",
+                 "mg_late_ld", "mg_tb_st", "mg_start_fa", "cb_tb_st", "cb_start_fs",
                  "tk_taken_fu", "tk_end_ld", "tk_end_st", "tk_up_ld",
                  "mg_tb_clr", "mg_end_fa", "mg_ended_st", "mg_sib_ld", "mg_tk_ended_st", "MG8",
                  "cb_vals_ld", "cb_rcu_ld", "cb_rcu_cas", "cb_ndata_fs", "cb_ndata_ld", "cb_emit_ld",
